@@ -478,10 +478,11 @@ Lemma op_getitem_inv s vi idx : SInv s -> SInv (fst (op_getitem s vi idx)).
 Proof.
   intros HS. unfold op_getitem.
   destruct (nth_error (vecs s) vi) as [v|] eqn:Hv; [|exact HS].
-  destruct (length (vshape v) <? length idx); [exact HS|].
   destruct ((length idx =? length (vshape v)) && forallb is_int idx).
-  - destruct (int_path (vshape v) idx) as [e|p]; [exact HS|].
-    destruct (tget (vdata v) p); exact HS.
+  { destruct (int_path (vshape v) idx) as [e|p]; [exact HS|].
+    destruct (tget (vdata v) p); exact HS. }
+  destruct ((length (vshape v) <? length idx) && forallb is_int (firstn (length (vshape v)) idx)).
+  { repeat (match goal with |- context [match ?x with _ => _ end] => destruct x end; try exact HS). }
   - match goal with |- context [resolve_raw ?a ?b] => destruct (resolve_raw a b) as [raw|] end; [|exact HS].
     destruct (resolve_take (vshape v) raw) as [e|idxs] eqn:Er; [exact HS|].
     match goal with |- context [mk_schema ?a ?b ?c ?d] => destruct (mk_schema a b c d) as [[[sh fs] us]|] eqn:E end;
@@ -771,6 +772,113 @@ Proof.
     rewrite Et in Hs. exact Hs.
 Qed.
 
+(* ================================================================ attribute setters, field-view indexing, reload *)
+Lemma op_set_fields_inv s vi a : SInv s -> SInv (fst (op_set_fields s vi a)).
+Proof.
+  intros HS. unfold op_set_fields.
+  destruct (nth_error (vecs s) vi) as [v|] eqn:Hv; [|exact HS].
+  destruct a as [| |l]; try exact HS.
+  destruct (nodupb l && (length l =? length (vfields v))) eqn:E; [|exact HS]. simpl.
+  apply andb_true_iff in E. destruct E as [En El]. apply Nat.eqb_eq in El.
+  destruct (SInv_vec s vi v HS Hv) as (V1 & V2 & V3 & V4 & V5 & V6).
+  eapply SInv_set; eauto; [apply heap_ext_refl|apply HS|].
+  repeat split; simpl; auto.
+  - apply nodupb_NoDup. exact En.
+  - congruence.
+  - rewrite El. exact V5.
+Qed.
+
+Lemma op_set_units_inv s vi a : SInv s -> SInv (fst (op_set_units s vi a)).
+Proof.
+  intros HS. unfold op_set_units.
+  destruct (nth_error (vecs s) vi) as [v|] eqn:Hv; [|exact HS].
+  destruct (SInv_vec s vi v HS Hv) as (V1 & V2 & V3 & V4 & V5 & V6).
+  destruct a as [| |l]; [exact HS| |].
+  - simpl. eapply SInv_set; eauto; [apply heap_ext_refl|apply HS|].
+    repeat split; simpl; auto. apply repeat_length.
+  - destruct (length l =? length (vfields v)) eqn:El; [|exact HS]. simpl. apply Nat.eqb_eq in El.
+    eapply SInv_set; eauto; [apply heap_ext_refl|apply HS|].
+    repeat split; simpl; auto.
+Qed.
+
+Lemma op_set_shape_same s vi sh : fst (op_set_shape s vi sh) = s.
+Proof. unfold op_set_shape. same_state. Qed.
+
+Lemma op_touch_same s vi : fst (op_touch s vi) = s.
+Proof. unfold op_touch. same_state. Qed.
+
+Lemma mapE_Forall2 (A B : Type) (f : A -> err + B) : forall l l',
+  mapE f l = inr l' -> Forall2 (fun x y => f x = inr y) l l'.
+Proof.
+  induction l as [|x r IH]; intros l' H; simpl in H.
+  - inversion H. constructor.
+  - destruct (f x) as [e|y] eqn:Ex; [discriminate|].
+    destruct (mapE f r) as [e|ys]; [discriminate|]. inversion H; subst. constructor; auto.
+Qed.
+
+(* the validated data have the nesting of the shape, and every element is a live array with one column
+   per field *)
+Lemma vcheck_ok rv h nf : forall sh t t',
+  vcheck rv h nf sh t = inr t' -> shaped sh t' /\ Forall (leaf_ok h nf) (leaves t').
+Proof.
+  induction sh as [|n sh IH]; intros t t' H; simpl in H.
+  - destruct t as [[i|]|l]; try discriminate.
+    destruct (nth_error rv i) as [x|]; [|discriminate].
+    destruct (check_val h nf x) as [e|id] eqn:Ec; [discriminate|]. inversion H; subst. simpl.
+    split; [exact I|]. constructor; [|constructor]. eapply check_val_ok; eauto.
+  - destruct t as [c|l]; [discriminate|].
+    destruct (length l =? n) eqn:El; [|discriminate]. apply Nat.eqb_eq in El.
+    destruct (mapE (vcheck rv h nf sh) l) as [e|l'] eqn:Em; [discriminate|]. inversion H; subst t'.
+    apply mapE_Forall2 in Em. simpl.
+    assert (G : length l' = length l /\ Forall (shaped sh) l' /\ Forall (leaf_ok h nf) (flat_map leaves l')).
+    { clear El H. induction Em as [|x y r r' Hxy Hr IHr]; simpl.
+      - repeat split; constructor.
+      - destruct (IH _ _ Hxy) as [S1 L1]. destruct IHr as (G1 & G2 & G3).
+        split; [lia|]. split; [constructor; auto|]. apply Forall_app. split; auto. }
+    destruct G as (G1 & G2 & G3). split; [split; [lia|exact G2]|exact G3].
+Qed.
+
+Lemma op_set_data_attr_inv s vi skel items : SInv s -> SInv (fst (op_set_data_attr s vi skel items)).
+Proof.
+  intros HS. unfold op_set_data_attr.
+  destruct (nth_error (vecs s) vi) as [v|] eqn:Hv; [|exact HS].
+  destruct (vshape v) as [|n sh] eqn:Esh; [exact HS|].
+  destruct (eval_avals (vecs s) (heap s) items) as [h rv] eqn:Ee.
+  destruct (vcheck rv h (length (vfields v)) (n :: sh) skel) as [e|t] eqn:Ec; [exact HS|]. simpl.
+  destruct (vcheck_ok _ _ _ _ _ _ Ec) as [Hs Hl].
+  eapply SInv_assign; eauto.
+  - eapply eval_avals_app; eauto.
+  - rewrite Esh. exact Hs.
+Qed.
+
+Lemma op_field_get_inv s vi name idx : SInv s -> SInv (fst (op_field_get s vi name idx)).
+Proof.
+  intros HS. unfold op_field_get.
+  destruct (nth_error (vecs s) vi) as [v|] eqn:Hv; [|exact HS].
+  destruct (index_of name (vfields v)) as [k|]; [|exact HS].
+  pose proof (op_getitem_inv s vi idx HS) as Hg.
+  destruct (op_getitem s vi idx) as [s' r]. simpl in Hg.
+  destruct r as [e| | |[id|]|l| |nc rr|l]; simpl; try exact Hg.
+  destruct (nth_error (heap s') id); exact Hg.
+Qed.
+
+Lemma op_reload_inv s vi : SInv s -> SInv (fst (op_reload s vi)).
+Proof.
+  intros HS. unfold op_reload.
+  destruct (nth_error (vecs s) vi) as [v|] eqn:Hv; [|exact HS].
+  destruct (tmapfold (realloc (fun c => c)) (heap s) (vdata v)) as [h t] eqn:Et. simpl.
+  destruct (SInv_vec s vi v HS Hv) as (V1 & V2 & V3 & V4 & V5 & V6).
+  apply tmapfold_pair in Et as El.
+  destruct (realloc_fold (fun c => c) (length (vfields v)) (length (vfields v))
+              (fun c Hc => Hc) (fun c Hc => Hc)
+              (leaves (vdata v)) (heap s) h (leaves t) (proj1 HS) V5 El) as (Ha & Hl & _).
+  apply SInv_push; auto.
+  - apply heap_app_ext. exact Ha.
+  - eapply heap_app_wf; [exact Ha|apply HS].
+  - pose proof (tmapfold_shaped (realloc (fun c => c)) (vshape v) (vdata v) (heap s) V2) as Hs.
+    rewrite Et in Hs. exact Hs.
+Qed.
+
 (* ================================================================ every operation, every history *)
 Theorem step_inv s o : SInv s -> SInv (fst (step s o)).
 Proof.
@@ -788,6 +896,13 @@ Proof.
   - apply op_add_fields_inv; exact HS.
   - apply op_remove_fields_inv; exact HS.
   - apply op_copy_inv; exact HS.
+  - apply op_set_fields_inv; exact HS.
+  - apply op_set_units_inv; exact HS.
+  - rewrite op_set_shape_same. exact HS.
+  - apply op_set_data_attr_inv; exact HS.
+  - rewrite op_touch_same. exact HS.
+  - apply op_field_get_inv; exact HS.
+  - apply op_reload_inv; exact HS.
 Qed.
 
 Lemma init_inv : SInv init.
@@ -914,7 +1029,7 @@ Proof.
   split; [|simpl; apply nth_error_alloc_new].
   unfold op_getitem, set_vec. cbn [vecs heap nmeta].
   rewrite nth_error_upd_eq by (apply nth_error_Some; congruence).
-  cbn [with_data vshape vdata]. rewrite Hlen, Nat.ltb_irrefl, Nat.eqb_refl, Hints. cbn [andb].
+  cbn [with_data vshape vdata]. rewrite Hlen, Nat.eqb_refl, Hints. cbn [andb].
   rewrite Ep, (tget_tset_same p (Some (length (heap s))) (vdata v) Et). reflexivity.
 Qed.
 
@@ -1137,9 +1252,10 @@ Theorem slice_addresses_cells s vi v idx s' :
       exists lf, tget (vdata w) o = Some lf /\ tget (vdata v) (src_of idxs o) = Some lf.
 Proof.
   intros HS Hv. simpl. unfold op_getitem. rewrite Hv.
-  destruct (length (vshape v) <? length idx); [discriminate|].
   destruct ((length idx =? length (vshape v)) && forallb is_int idx).
   { destruct (int_path (vshape v) idx) as [e|p]; [discriminate|]. destruct (tget (vdata v) p); discriminate. }
+  destruct ((length (vshape v) <? length idx) && forallb is_int (firstn (length (vshape v)) idx)).
+  { repeat (match goal with |- context [match ?x with _ => _ end] => destruct x end; try discriminate). }
   match goal with |- context [resolve_raw ?a ?b] => destruct (resolve_raw a b) as [raw|] eqn:Eraw end; [|discriminate].
   destruct (resolve_take (vshape v) raw) as [e|idxs] eqn:Er; [discriminate|].
   match goal with |- context [mk_schema ?a ?b ?c ?d] => destruct (mk_schema a b c d) as [[[sh fs] us]|] eqn:E end;
